@@ -6,7 +6,7 @@ EXTENDS Gen_C05, ParamDecode
 InScope(sh) == sh.id \in {"int", "int32", "num", "bool", "str", "arrint", "arrstr", "obj", "objk", "multitype", "multitype_str"}
 PathCells == {c \in Cells : c.in = "path"}
 FormCells == {c \in Cells : c.in = "query" /\ c.style = "form"}
-EncModes == {"min", "all"}
+EncModes == {"min", "all", "alt"}
 Others == {"-", "z", "upper"}
 
 (* the judged points: (cell, shape, schema, value) with a determined wire and a determined decoded value *)
@@ -52,6 +52,9 @@ ASSUME \A x \in ClosedPoints({c \in FormCells : ~c.explode}) : FormKeeps("keep_o
 (* 2. the universe tells the orders apart: unescaping before splitting is NOT an inverse, in every path cell           *)
 ASSUME \A c \in PathCells : \E sh \in Shapes : InScope(sh) /\ \E sv \in SV(sh) :
           Defined(c, sv.v) /\ ~PathTrip("unescape_split", "keep_own", c, sv.s, sv.v, "min")
+(*    ... and so does the way members are unescaped: by the rules of the query ("+" is a space) no path cell is inverted  *)
+ASSUME \A c \in PathCells : \E sh \in Shapes : InScope(sh) /\ \E sv \in SV(sh), m \in EncModes :
+          Defined(c, sv.v) /\ ~PathTrip("split_qunescape", "keep_own", c, sv.s, sv.v, m)
 (* 3. in the query that order is the one built today (url.Values is decoded text): it fails exactly on non-exploded     *)
 (*    values that hold an escaped comma -- the class of the open finding F-C05-4, nothing else                          *)
 ASSUME FormFailures("unescape_split", "keep_own") # {}
